@@ -113,10 +113,14 @@ def source_pool(rng):
     srcs = [(n, s) for n, s in HANDMADE]
     srcs += [(p['gen'], p['src']) for p in gp.corpus()]
     srcs += [(p['gen'], p['src']) for p in gp.out_of_domain(rng)]
+    # special shapes (several memory parameters on different lines, 300 nested else-if, ...): what is analysed
+    # repeatedly and from 16 threads at once must include them
+    special = set(p['src'] for p in gp.special_programs())
+    srcs += [(p['gen'], p['src']) for p in gp.special_programs()]
     seen = set()
     out = []
     for n, s in srcs:
-        if s in seen or len(s) > 4000:
+        if s in seen or (len(s) > 4000 and s not in special) or len(s) > 20000:
             continue
         seen.add(s)
         out.append((n, s.encode('utf-8')))
